@@ -36,7 +36,9 @@
 (*   alter (a signed bit of a record), addRec (one more record in the       *)
 (*   RRset), forge (alter + RRSIG by a key of his own claiming the zone as  *)
 (*   signer), forgeEvil (alter + RRSIG by the evil. zone's key, signer      *)
-(*   evil.), swapKey (DNSKEY RRset replaced by his key, self-signed),       *)
+(*   evil.), forgeIsland (alter + RRSIG naming as signer the unrelated zone *)
+(*   island., which is signed but whose DS is provably absent), swapKey     *)
+(*   (DNSKEY RRset replaced by his key, self-signed),                       *)
 (*   dropSet (RRset and RRSIGs removed), dropMsg (SERVFAIL instead of the   *)
 (*   response), childSide (the DS query answered by the child zone:         *)
 (*   NODATA with the child's own apex NSEC, RFC 6840 4.4), inject (an       *)
@@ -77,7 +79,7 @@ Needed(q) == IF q = "nodata" THEN {"nsecq"} ELSE IF q = "nx" THEN {"nsecq", "nse
 \* what is delivered under a set of faults
 
 SigOps     == {"dropSig", "dropSig1", "dropSig2", "sigBit"}
-ContentOps == {"alter", "addRec", "forge", "forgeEvil", "swapKey"}
+ContentOps == {"alter", "addRec", "forge", "forgeEvil", "forgeIsland", "swapKey"}
 WholeOps   == {"dropMsg", "childSide"}
 
 \* the keys whose signature authenticates the item: for the apex DNSKEY RRset only a key
@@ -159,19 +161,50 @@ ItemNames == {"data", "inj", "soa", "nsecq", "nsecw"}
 Allow(w, F, q) ==
     [x \in ItemNames |-> [sec |-> SecureOk(w, F, x), ins |-> InsecureOk(w, F, w.n)]]
 
-\* an observation: item proofs (record: item name -> proof) and response class
-\*   class "answer"        a response with a non-empty answer section
-\*         "neg-secure"    empty answer, every authority record Secure
-\*         "neg-insecure"  empty answer accepted without authentication (no Bogus record)
-\*         "neg-bogus"     empty answer, some authority record Bogus
-\*         "err-insecure"  the DNSSEC error carrying proof Insecure (served like neg-insecure)
-\*         "err"           any other error
-ObservationOk(w, F, q, items, class) ==
-    /\ \A x \in DOMAIN items :
-          /\ (items[x] = "Secure" => x \in ItemNames /\ SecureOk(w, F, x))
-          /\ (items[x] = "Insecure" => InsecureOk(w, F, w.n))
+\* an observation: obs = sequence of [x |-> item name, k |-> "rr" | "sig", p |-> proof] (one entry
+\* per distinct proof seen on the records / RRSIGs of an item of the final response) and the
+\* response class
+\*   "answer"        a response with a non-empty answer section
+\*   "neg-secure"    empty answer (NOERROR / NXDOMAIN) whose denying records (the authority section
+\*                   without SOA and RRSIGs) are present and all Secure
+\*   "neg-insecure"  empty answer accepted without such records (and without a Bogus record)
+\*   "neg-bogus"     empty answer, some authority record Bogus
+\*   "err-insecure"  the DNSSEC error carrying proof Insecure (served like neg-insecure)
+\*   "err"           any other error (including an error RCODE handed through)
+\* Bogus, Indeterminate and errors are always allowed: both clauses of the property are "only if".
+ObservationOk(w, F, q, obs, class) ==
+    /\ \A k \in 1..Len(obs) :
+          /\ (obs[k].p = "Secure" => obs[k].x \in ItemNames /\ SecureOk(w, F, obs[k].x))
+          /\ (obs[k].p = "Insecure" => InsecureOk(w, F, w.n))
     /\ (class = "neg-secure" => NegSecureOk(w, F, q))
     /\ (class \in {"neg-insecure", "err-insecure"} => InsecureOk(w, F, w.n))
+
+\* what a server in front of the validator hands to a client (property: "the server sets AD" only
+\* for Secure data, "SERVFAIL to CD=0 clients" on Bogus; RFC 4035 3.2.2, 3.2.3):
+\*   cd      the client's CD bit;  rcode, ad: RCODE and AD bit of the response;
+\*   ans     sequence of the items whose records are in its answer section
+\* AD: every RRset of the answer (the denial, for an empty answer) may be Secure.
+\* CD = 0 and no error RCODE: everything in the answer may be Secure or Insecure, i.e. nothing
+\* that ought to have been Bogus is handed out; an empty answer is an authenticated or a
+\* provably insecure denial.  An error RCODE is always allowed; with CD = 1 anything but AD is.
+ServedOk(w, F, q, cd, rcode, ad, ans) ==
+    LET ok == rcode \in {"NOERROR", "NXDOMAIN"} IN
+    /\ ad => /\ ok
+             /\ IF Len(ans) > 0 THEN \A k \in 1..Len(ans) : ans[k] \in ItemNames /\ SecureOk(w, F, ans[k])
+                ELSE NegSecureOk(w, F, q)
+    /\ (ok /\ ~cd) =>
+             IF Len(ans) > 0
+             THEN \A k \in 1..Len(ans) : ans[k] \in ItemNames /\ (SecureOk(w, F, ans[k]) \/ InsecureOk(w, F, w.n))
+             ELSE NegSecureOk(w, F, q) \/ InsecureOk(w, F, w.n)
+
+\* diagnosis for reports (never used to judge): what the un-faulted world allows, and which
+\* single faults of F each forbid it on their own
+Diagnosis(w, F, q) ==
+    [base  |-> [sec |-> [x \in ItemNames |-> SecureOk(w, {}, x)], ins |-> InsecureOk(w, {}, w.n),
+                neg |-> NegSecureOk(w, {}, q)],
+     blame |-> [sec |-> [x \in ItemNames |-> {f \in F : ~SecureOk(w, {f}, x)}],
+                ins |-> {f \in F : ~InsecureOk(w, {f}, w.n)},
+                neg |-> {f \in F : ~NegSecureOk(w, {f}, q)}]]
 
 \* -------------------------------------------------------------------------
 \* the faults that make sense in a world (used by the MC and Gen configurations; the monitor
@@ -183,9 +216,10 @@ TwoKeyOps(w, zone) == IF w.keys[zone] = 2 THEN {"dropSig1", "dropSig2"} ELSE {}
 AnsFaults(w, q) ==
     (IF ~w.signed[w.n] THEN {}
      ELSE IF q = "pos"
-     THEN {Flt("ANS", 0, "data", op) : op \in {"dropSig", "sigBit", "alter", "addRec", "forge", "forgeEvil", "dropSet"}
+     THEN {Flt("ANS", 0, "data", op) : op \in {"dropSig", "sigBit", "alter", "addRec", "forge", "forgeEvil", "forgeIsland", "dropSet"}
                                               \cup TwoKeyOps(w, w.n)}
-     ELSE {Flt("ANS", 0, x, op) : x \in AnsItems(w, q) \ {"soa"}, op \in {"dropSig", "alter", "forge", "dropSet"} \cup TwoKeyOps(w, w.n)}
+     ELSE {Flt("ANS", 0, x, op) : x \in AnsItems(w, q) \ {"soa"},
+                                  op \in {"dropSig", "alter", "forge", "forgeEvil", "forgeIsland", "dropSet"} \cup TwoKeyOps(w, w.n)}
           \cup {Flt("ANS", 0, "soa", op) : op \in {"dropSig", "alter", "dropSet"}})
     \cup {Flt("ANS", 0, "inj", "inject"), Flt("ANS", 0, "msg", "dropMsg")}
 
@@ -195,9 +229,9 @@ KeyFaults(w) ==
 
 DsFaults(w) ==
     UNION {(IF "ds" \in DsItems(w, z)
-            THEN {Flt("DS", z, "ds", op) : op \in {"dropSig", "sigBit", "alter", "addRec", "forge", "dropSet"} \cup TwoKeyOps(w, z - 1)}
+            THEN {Flt("DS", z, "ds", op) : op \in {"dropSig", "sigBit", "alter", "addRec", "forge", "forgeEvil", "dropSet"} \cup TwoKeyOps(w, z - 1)}
                  \cup (IF w.signed[z] THEN {Flt("DS", z, "msg", "childSide")} ELSE {})
-            ELSE {Flt("DS", z, "nsecds", op) : op \in {"dropSig", "alter", "forge", "dropSet"} \cup TwoKeyOps(w, z - 1)}
+            ELSE {Flt("DS", z, "nsecds", op) : op \in {"dropSig", "alter", "forge", "forgeEvil", "dropSet"} \cup TwoKeyOps(w, z - 1)}
                  \cup {Flt("DS", z, "soa", op) : op \in {"dropSig", "dropSet"}})
            \cup {Flt("DS", z, "msg", "dropMsg")} : z \in {i \in 2..w.n : w.signed[i - 1]}}
 
